@@ -72,10 +72,22 @@ def ob_check(w, P):
     # Settings.size is compared with SUM(size) *after* wrong sizes were repaired when fix is on
     if not w.is_real:
         c._con.db.realise_filenames = True  # check() puts the paths into a set: hand them out as real strings (forks)
+    if P.get('busy'):
+        x.arm_busy()
     x.begin()
     with warnings.catch_warnings():
         warnings.simplefilter('always')
-        ws1 = c.check(fix=fix)
+        try:
+            ws1 = c.check(fix=fix, retry=P.get('retry', False))
+        except w.L.core.Timeout:
+            x.end()
+            flag('timeout_raised')
+            x.add('C17,C14', 'a check that cannot get the lock raises Timeout only when retry was not requested', bool(P.get('busy')) and not P.get('retry'))
+            x.add('C17,C14', 'and has changed no row and no counter', And(unchanged(T0, x.T1), spec.same_count(T0, x.T1), EqR(T0.settings['count'].num, x.T1.settings['count'].num),
+                                                                         EqR(T0.settings['size'].num, x.T1.settings['size'].num)))
+            return x.result()
+        if P.get('busy'):
+            x.add('C17,C14', 'a check that met a busy lock without retry does not return normally', bool(P.get('retry')) or x.busy_attempts[0] == 0)
         k1 = kinds_of(ws1)
         T1 = s.snapshot()
         ws2 = c.check() if fix else None
@@ -117,4 +129,8 @@ def jobs(tier):
         for fix in (False, True):
             out.append(dict(id='check.N=%d.fix=%s' % (N, fix), func='ob_check', params=dict(N=N, fix=fix), tags=['C17', 'C08'], functions=F, weight=N * 10,
                             must_reach=['fixed' if fix else 'report_only']))
+    for fix in (False, True):
+        out.append(dict(id='check.busy.noretry.fix=%s' % fix, func='ob_check', params=dict(N=1, fix=fix, busy=1), tags=['C17', 'C14'], functions=F, weight=10, must_reach=['timeout_raised']))
+        out.append(dict(id='check.busy.retry.fix=%s' % fix, func='ob_check', params=dict(N=1, fix=fix, busy=1, retry=True), tags=['C17', 'C14'], functions=F, weight=20,
+                        must_reach=['lock_busy', 'fixed' if fix else 'report_only']))
     return out
